@@ -1,5 +1,6 @@
 import Tcell.Lemmas.KeyPrefixFree
 import Tcell.Gen.Keys
+import Tcell.Gen.TerminfoKeys
 /-
 C03 — "Every key sequence of every terminal decodes to its key and modifiers".
 
@@ -7,7 +8,7 @@ Generic layer (any key table `T = cfg.keys`): `key_decodes`, `unique_match`, `ct
 `lone_esc`, `del_is_backspace2`, `alt_prefix`.
 Database layer (kernel evaluation over the regenerated `Gen.dbTables` = the key table the real constructor builds for
 every entry, dumped by the translator from `tcell.VerifKeyTable`, and `Gen.db` = the entries' fields):
-`db_prefix_free`, `db_keys_decode_partial` (+ `ignored_caps_counterexample`), `db_xterm_mods`, `db_ctrl_bytes`,
+`db_prefix_free`, `db_keys_decode` (+ `specCaps_complete`, `ignored_caps_counterexample`), `db_xterm_mods`, `db_ctrl_bytes`,
 `db_mouse_clear`.  The tie `buildKeys e = Gen table of e` (model of prepareKeys ↔ real table) is the exhaustive
 `keytable` correspondence engine.
 -/
@@ -291,18 +292,82 @@ def capsDecode (e : Terminfo) (rows : List Gen.KeyRow) (caps : List (Nat × Nat 
       | some km => assignedOK e s km
       | none => mayBeAbsent
 
-/-- the capabilities prepareKeys of the pinned tree inserts = all but KeyClear, KeyShfInsert, KeyShfDelete and the
-Meta/Alt/…Shf families (for those see `db_all_caps_consistent`) -/
-def dbKeysOK (p : Terminfo × List Gen.KeyRow) : Bool := capsDecode p.1 p.2 (baseKeyCaps p.1.keys) false
+set_option maxRecDepth 100000 in
+/-- `specCaps` is complete: it lists exactly the `Key*` capability fields of `terminfo.Terminfo`, in declaration order, as
+regenerated by reflection (`Gen.TerminfoKeys`: `TermKeys.all`) — a field added to the struct makes this fail -/
+theorem specCaps_complete (k : TermKeys) : (specCaps k).map (·.2.2) = k.all := rfl
+
+/-- every `Key*` capability field of the description -/
+def dbKeysOK (p : Terminfo × List Gen.KeyRow) : Bool := capsDecode p.1 p.2 (specCaps p.1.keys) false
 
 set_option maxRecDepth 1000000 in
-/-- **DB: every key capability decodes to an assigned key** (all entries; capabilities prepareKeys handles).  Together with
-`key_decodes` (table entry ⇒ event) and `db_prefix_free` this is the statement for each such capability string. -/
-theorem db_keys_decode_partial : Gen.dbTables.all dbKeysOK = true := by decide +kernel
+/-- **DB: every key capability decodes to an assigned key** (full strength, current tree): for EVERY entry of the regenerated
+database and EVERY `Key*` capability field it defines (all 160 fields of `terminfo.Terminfo`, `specCaps_complete`; other
+than the single DEL byte, which `parseRune` turns into Backspace2 before any table lookup), the string is in the key
+table the real constructor builds, with a key and modifiers the description assigns to that string.  Together with
+`key_decodes` (table entry ⇒ event) and `db_prefix_free` this is the statement for each capability string.
+Holds since /repo bca46fc registered `KeyClear`, `KeyShfInsert`, `KeyShfDelete` (before it: only for the capabilities
+`baseKeyCaps` lists — aixterm/hpterm `KeyClear` and the rxvt family's `KeyShfInsert`/`KeyShfDelete` were absent from the
+table, finding `key-capability-ignored`).  The Meta/Alt/…Shf cursor-key fields, which `prepareKeys` still does not
+read, are defined by no built-in entry (`db_unread_caps_undefined`), so no exception is needed for the database; a
+user-supplied or dynamic description that sets them on a non-xterm-modifier entry is outside this theorem. -/
+theorem db_keys_decode : Gen.dbTables.all dbKeysOK = true := by decide +kernel
+
+/-- ∀-form of `db_keys_decode` -/
+theorem db_keys_decode_each (p : Terminfo × List Gen.KeyRow) (hp : p ∈ Gen.dbTables) (c : Nat × Nat × Bytes)
+    (hc : c ∈ specCaps p.1.keys) (hne : c.2.2 ≠ []) (hdel : c.2.2 ≠ [127]) :
+    ∃ km, lookupRow p.2 c.2.2 = some km ∧ assignedOK p.1 c.2.2 km = true := by
+  have h := List.all_eq_true.mp (List.all_eq_true.mp db_keys_decode p hp) c hc
+  cases hl : lookupRow p.2 c.2.2 with
+  | none =>
+    exfalso
+    revert h
+    cases hs : c.2.2 with
+    | nil => exact absurd hs hne
+    | cons a t =>
+      rw [hs] at hl hdel
+      cases t with
+      | nil =>
+        by_cases ha : a = 127
+        · subst ha; exact absurd rfl hdel
+        · intro h; simp [hl] at h
+      | cons b t' => intro h; simp [hl] at h
+  | some km =>
+    refine ⟨km, rfl, ?_⟩
+    revert h
+    cases hs : c.2.2 with
+    | nil => exact absurd hs hne
+    | cons a t =>
+      rw [hs] at hl hdel
+      cases t with
+      | nil =>
+        by_cases ha : a = 127
+        · subst ha; exact absurd rfl hdel
+        · intro h; simpa [hl] using h
+      | cons b t' => intro h; simpa [hl] using h
+
+/-- the capability fields `prepareKeys` does not read at all (it derives the xterm-style ones from the modifier
+scheme instead): Meta/Alt/Alt-Shift/Meta-Shift/Ctrl-Shift cursor and Home/End keys -/
+def unreadCaps (k : TermKeys) : List Bytes :=
+  [k.keyMetaUp, k.keyMetaDown, k.keyMetaRight, k.keyMetaLeft, k.keyAltUp, k.keyAltDown, k.keyAltRight, k.keyAltLeft,
+   k.keyMetaHome, k.keyMetaEnd, k.keyAltHome, k.keyAltEnd, k.keyAltShfUp, k.keyAltShfDown, k.keyAltShfLeft, k.keyAltShfRight,
+   k.keyMetaShfUp, k.keyMetaShfDown, k.keyMetaShfLeft, k.keyMetaShfRight, k.keyCtrlShfUp, k.keyCtrlShfDown, k.keyCtrlShfLeft,
+   k.keyCtrlShfRight, k.keyCtrlShfHome, k.keyCtrlShfEnd, k.keyAltShfHome, k.keyAltShfEnd, k.keyMetaShfHome, k.keyMetaShfEnd]
+
+/-- no built-in entry defines any of them (so `db_keys_decode` does not rest on strings that happen to coincide) -/
+theorem db_unread_caps_undefined : Gen.dbTables.all (fun p => (unreadCaps p.1.keys).all (·.isEmpty)) = true := by decide +kernel
+
+/-- non-vacuity: the three capabilities the pinned tree ignored are defined by database entries and now decode to their
+keys — `KeyClear` of aixterm, `KeyShfInsert` / `KeyShfDelete` of rxvt -/
+example :
+    (∃ p ∈ Gen.dbTables, p.1.name = "aixterm" ∧ p.1.keys.keyClear ≠ [] ∧ lookupRow p.2 p.1.keys.keyClear = some (keyClear, modNone)) ∧
+    (∃ p ∈ Gen.dbTables, p.1.name = "rxvt" ∧ p.1.keys.keyShfInsert ≠ [] ∧ p.1.keys.keyShfDelete ≠ [] ∧
+      lookupRow p.2 p.1.keys.keyShfInsert = some (keyInsert, modShift) ∧
+      lookupRow p.2 p.1.keys.keyShfDelete = some (keyDelete, modShift)) := by decide +kernel
 
 set_option maxRecDepth 1000000 in
-/-- the three capabilities the pinned prepareKeys ignores, and every other field of the description: wherever the built
-table has the string at all, the key is an assigned one (so the repaired variant satisfies the full statement) -/
+/-- tree-independent form (true on the pinned tree too): wherever the built table has a capability string at all, the key is
+an assigned one -/
 theorem db_all_caps_consistent :
     Gen.dbTables.all (fun p => capsDecode p.1 p.2 (specCaps p.1.keys) true) = true := by decide +kernel
 
